@@ -360,7 +360,10 @@ func (k *Kad) GetAuroraAddress(overlay boson.Address) (addr *aurora.Address, err
 	switch {
 	case errors.Is(err, addressbook.ErrNotFound):
 		k.logger.Debugf("kademlia: empty address book entry for peer %q", overlay)
-		k.knownPeers.Remove(overlay)
+		// a connected peer stays known
+		if !k.connectedPeers.Exists(overlay) {
+			k.knownPeers.Remove(overlay)
+		}
 		return
 	case err != nil:
 		k.logger.Debugf("kademlia: failed to get address book entry for peer %q: %v", overlay, err)
@@ -372,6 +375,10 @@ func (k *Kad) GetAuroraAddress(overlay boson.Address) (addr *aurora.Address, err
 func (k *Kad) Connection(ctx context.Context, addr *aurora.Address) error {
 	remove := func(peer boson.Address) {
 		k.waitNext.Remove(peer)
+		if k.connectedPeers.Exists(peer) {
+			// the peer connected to us while the dial failed: it stays known
+			return
+		}
 		k.knownPeers.Remove(peer)
 		if err := k.addressBook.Remove(peer); err != nil {
 			k.logger.Debugf("kademlia: could not remove peer %q from addressbook", peer)
@@ -986,7 +993,10 @@ func (k *Kad) connect(ctx context.Context, peer boson.Address, ma ma.Multiaddr) 
 
 		ss := k.collector.Inspect(peer)
 		quickPrune := (ss == nil || ss.HasAtMaxOneConnectionAttempt()) && isNetworkError(err)
-		if (k.connectedPeers.Length() > 0 && quickPrune) || failedAttempts >= maxConnAttempts {
+		if k.connectedPeers.Exists(peer) {
+			// the peer connected to us while the dial failed: it stays known
+			k.waitNext.Remove(peer)
+		} else if (k.connectedPeers.Length() > 0 && quickPrune) || failedAttempts >= maxConnAttempts {
 			k.waitNext.Remove(peer)
 			k.knownPeers.Remove(peer)
 			if err := k.addressBook.Remove(peer); err != nil {
@@ -1101,7 +1111,10 @@ func (k *Kad) Outbound(peer p2p.Peer) {
 	k.logger.Debugf("kademlia: connected to peer: %q in bin: %d", peer, po)
 
 	if peer.Mode.IsBootNode() {
-		k.knownPeers.Remove(peer.Address)
+		// a boot node that is connected inbound is counted and stays known
+		if !k.connectedPeers.Exists(peer.Address) {
+			k.knownPeers.Remove(peer.Address)
+		}
 		return
 	}
 	k.knownPeers.Add(peer.Address)
